@@ -20,7 +20,7 @@ pub static DEF: CheckDef = CheckDef {
     id: "C10",
     level: "exploration",
     technique: "deterministic component simulation of the trust engine: actor tasks on a seeded runtime with simulated clock and background recomputation; oracles = distribution invariants after every recomputation, twin-engine equality, one-extra-report counterfactual twin",
-    runs: (1500, 60000),
+    runs: (6000, 200000),
     generate,
     execute,
     shrink,
@@ -77,7 +77,9 @@ fn generate(seed: u64, tier: Tier) -> Value {
         op["delay_ms"] = json!(delay);
         ops.push(op);
     }
-    let cf_kind = *r.pick(CF_KINDS);
+    // pairwise reports get half of the draws (they act through the iteration, where the
+    // subtle interactions live), the five statistics kinds share the rest
+    let cf_kind = if r.chance(1, 2) { *r.pick(&["local_success", "local_failure"]) } else { *r.pick(CF_KINDS) };
     // bias the subject towards nodes that are mentioned, sometimes a fresh one
     let mut mentioned: Vec<u64> = Vec::new();
     for o in &ops {
@@ -89,7 +91,8 @@ fn generate(seed: u64, tier: Tier) -> Value {
     }
     let pick_id = |r: &mut Rng| if !mentioned.is_empty() && r.chance(9, 10) { *r.pick(&mentioned) } else { r.below(n) };
     let cf_node = pick_id(&mut r);
-    let cf_from = pick_id(&mut r);
+    // one counterfactual in five is a self-rating (the subject reports on itself)
+    let cf_from = if r.chance(1, 3) { cf_node } else { pick_id(&mut r) };
     let cf = json!({"at": r.below(nops + 1), "node": cf_node, "kind": cf_kind, "from": cf_from});
     json!({"property": "C10", "seed": seed, "n": n, "anchors": anchors, "tasks": tasks,
            "background": r.chance(1, 2), "ops": ops, "cf": cf})
